@@ -7,7 +7,7 @@ from vlib import core, prog, physics, h5oracle
 ASSUME = [
     "all runs of a group share one FFT wisdom directory that was warmed up by a discarded run (same wisdom => same plans); nothing is claimed across different wisdom files",
     "/Particles is compared only between runs with the same tracking file and a deterministic tracking model (FPTrack 0-2): the stochastic model seeds itself from random_device",
-    "RF noise/modulation off (the property excludes noise)",
+    "RF noise off (the property excludes noise); deterministic phase modulation is used in a fifth of the groups, incl. /RFKicks in the comparison",
     "records are matched by step number (time * steps per period, rounded)",
 ]
 
@@ -16,7 +16,7 @@ def gen_group(seed, g, tier):
     r = core.Rng("c12", seed, g)
     o = dict(GridSize=r.choice([32, 48, 64, 64, 96]), StepsPerTs=r.choice([50, 100, 200]),
              rotations=r.choice([0.25, 0.5, 0.375]))
-    imp = r.choice(["none", "csr", "csr", "wall"])
+    imp = ["none", "csr", "wall", "csr"][g % 4]          # stratified: every impedance x renormalisation combination appears
     if imp == "none":
         o["VacuumGap"] = 0
     elif imp == "wall":
@@ -25,7 +25,12 @@ def gen_group(seed, g, tier):
     if r.chance(0.3):
         o["BunchCurrent"] = [o["BunchCurrent"][0] / 2, o["BunchCurrent"][0] / 3]
         o["HarmonicNumber"] = r.choice([300, 400, 600])
-    o["RenormalizeCharge"] = r.choice([-1, 0, 0, 4])
+    o["RenormalizeCharge"] = [-1, 0, 4, 3][(g // 4) % 4]
+    if g % 5 == 0:
+        # deterministic RF phase modulation (no noise), both RF models
+        o["LinearRF"] = (g % 10 == 0)
+        o["RFPhaseModAmplitude"] = r.choice([0.2, 1.0])
+        o["RFPhaseModFrequency"] = float(r.choice([4000, 9000, 20000]))
     if r.chance(0.3):
         o["PhaseSpaceShiftX"] = round(r.uniform(-3, 3), 2)
     if r.chance(0.3):
@@ -35,6 +40,8 @@ def gen_group(seed, g, tier):
     last = prog.laststep(o["StepsPerTs"], o["rotations"])
     variants = [dict(outstep=1, SavePhaseSpace=1)]          # reference: every step, every phase space
     variants.append(dict(outstep=1, SavePhaseSpace=1))     # identical repetition
+    variants.append(dict(outstep=r.choice([5, 7]), SavePhaseSpace=r.choice([0, 2])))     # a cadence that does not line up with the renormalisation period
+    variants.append(dict(outstep=0, SavePhaseSpace=0))     # never
     for k in range(6 if tier == "thorough" else 4):
         v = dict(outstep=r.choice([2, 5, 13, 0, last + 3, 7, 1]), SavePhaseSpace=r.choice([0, 1, 2, 3]))
         if r.chance(0.4):
